@@ -105,6 +105,12 @@ CLAIMED = {
         "Tie: generated accepted methods over the constructs the Java backend handles are emitted by the real idlc --java, compiled with javac against a minimal stand-in of the Mink Java runtime API, and driven Proxy -> recording copying transport -> MinkObject -> scripted implementation; per call the lengths of bi/boSizes/oi/oo are compared with the counts of the real C-family pipeline, every bi/bo byte string and oi/oo token list with the Lean reference encoder, delivered inputs and returned outputs/status with the caller's. "
         "Seven constructs inside the property's quantifier on which the generated Java fails (primitive arrays other than byte input, struct arrays, nested struct input, fixed-array struct members, a second out bundle) are known findings, each re-confirmed by a witness on every run.",
    note="Trusted: javac/java 17, the stand-in runtime API under bench/java-runtime (IMinkObject, JMinkObject, MinkProxy: only the members the generated code refers to), the bench's generated Java driver. " + TB),
+ "C20": dict(engine="lean+concurrency bench", technique="Lean 4 proof (inductive invariant of a transition system over all interleavings) + trace validation of real multi-threaded histories against the model + generated-text scan",
+   text="Partial. Lean 4, for EVERY schedule of the model (any number of threads, handles, clones, sends, scoped lends, calls and drops; induction over action lists): at most one method body runs at a time and a body is entered only when none runs (mutual_exclusion, enter_excludes); every body reads exactly the accumulated effect of all bodies completed before it (observes_completed); the implementation is dropped at most once, only after the count reached zero, never while a handle is alive, a call is pending, in its body or returning (not_dropped_while_in_use, alive_while_referenced), and exactly once when all handles are gone (dropped_after_last_release); the count never underflows (release_enabled). "
+        "The model's steps are the atomic actions of tests/src/object/wrapper.rs (fetch_add / fetch_sub, free on 1), tests/src/object/mod.rs (retain on clone, release on drop) and the generated skeleton arm (body under the wrapper's mutex); sequential consistency is ASSUMED. "
+        "Tie: real histories (generated Rust for two interfaces incl. inheritance + /repo's runtime, 1-32 OS threads, seeded scripts, concurrent use of one lent handle, contended last release) must be behaviours of the model (Lean driver replay) and pass an independent reference checker; a patched skeleton without the lock must be rejected in the same run (negative control); every generated method arm of random generated interfaces must call the implementation under `(*cx).inner.lock()` and wrapper.rs must use single atomic RMW operations with at least AcqRel ordering on release (text scan). "
+        "What no executable model here exhibits: weak-memory reorderings, and interleavings the OS scheduler did not produce (they are covered by the theorem only through the model).",
+   note="Trusted: the stress program and its event placement (bench/conc/main.rs.tmpl, bench/NOTES_conc.md), the OS scheduler as the source of interleavings, the text scan's regular expressions. Finding recorded in DESIGN.md: the generated From<T> does not require T: Send although the wrapper asserts Send/Sync. " + TB),
 }
 
 PENDING_REASON = "check under construction in this session; will be claimed when theorem file, tie and evidence exist"
